@@ -515,12 +515,26 @@ func vfC08Plateau(res *vfResult, c vfC08Case, v vfVariant) {
 	var at []vfSizes
 	sent := 0
 	batchNo := 0
+	junkSeq := 0
 	res.Eval(1)
 	for _, m := range marks {
 		for sent < m {
 			var h []vfHostile
 			batchNo++
-			switch batchNo % 4 {
+			switch batchNo % 5 {
+			case 4:
+				// complete, well-formed but unauthenticated handshake messages, numbered consecutively from the
+				// message sequence the target expects next: each one assembles at once
+				cur := dtlsstate.HandshakeRecvSequence(target.Conn.state)
+				for q := 0; q < 8; q++ {
+					body := vfRandBytes(r, 40)
+					ms := uint16(cur + junkSeq)
+					junkSeq++
+					h = append(h, vfHostile{Data: vfLegacyRecord(22, 0xfefd, 0, uint64(500000+sent+q), nil, -1,
+						vfHSFragment([]uint8{1, 11, 12, 16, 20}[q%5], uint32(len(body)), ms, 0, uint32(len(body)), body)), Class: "?",
+						Note: "complete unauthenticated handshake message at the next expected sequence"})
+					res.Count("plateau_sequential_junk_messages", 1)
+				}
 			case 0:
 				h = vfGenRaw(r, 8)
 			case 1:
